@@ -85,3 +85,25 @@ func VerifUnwrapDeliver(m any) (target, sender *actor.PID, msg any, ok bool) {
 	}
 	return sd.target, sd.sender, sd.msg, true
 }
+
+// verifWriter is a real streamWriter registered as a process without dialing anybody: its inbox runs, its Invoke is
+// the real one (writing to an in-memory stream).  onSend sees what is sent to it.
+type verifWriter struct {
+	*streamWriter
+	onSend func(pid *actor.PID, msg any, sender *actor.PID)
+}
+
+func (v *verifWriter) Start() { v.inbox.Start(v.streamWriter) }
+func (v *verifWriter) Send(pid *actor.PID, msg any, sender *actor.PID) {
+	v.onSend(pid, msg, sender)
+	v.streamWriter.Send(pid, msg, sender)
+}
+
+// VerifSpawnWriter registers a stream writer for address addr on e (PID stream/<addr>).
+func VerifSpawnWriter(e *actor.Engine, addr string, onSend func(pid *actor.PID, msg any, sender *actor.PID)) *actor.PID {
+	c1, _ := net.Pipe()
+	sw := newStreamWriter(e, actor.NewPID(e.Address(), "verif/router"), addr, nil, 0).(*streamWriter)
+	sw.stream = &verifStream{}
+	sw.rawconn = c1
+	return e.SpawnProc(&verifWriter{streamWriter: sw, onSend: onSend})
+}
